@@ -234,6 +234,13 @@ def run(prog, chk):
                     want = 'true' if f is sim['measure'] else ('false' if f in (sim['reset'], sim['allocate']) else None)
                     chk.ob('R06.6', f, n.get('ln', f.ln), want is not None and val == want,
                            'simulator flag write in %s (value %s)' % (f.short, val), key='sim-flag-write:' + f.short)
+    res = _alloc_flag_table(prog, chk, R, sim, mf)
+    if res[0] is None:
+        chk.note('allocate flag table not evaluated: ' + str(res[1]))
+    else:
+        chk.ob('R06.5', sim['allocate'], sim['allocate'].ln, not res[0],
+               'allocate returns the old count, increments it, and leaves flag[index] present and false on all %d abstract (count, flag-vector length) states; counterexamples: %s' % (res[1], res[0][:3]),
+               key='sim-alloc-table')
     for f, want in ((sim['measure'], True), (sim['reset'], False), (sim['allocate'], False)):
         g = prog.cfg(f)
         ws = [n for n, l, r, op in g.writes() if SX.member_chain(l)[1][:1] == [mf] and op == '='
@@ -245,6 +252,32 @@ def run(prog, chk):
                             else g.must_follow(g.entry, ws + resize))
         chk.ob('R06.5', f, f.ln, ok, 'simulator %s must %s the measured flag of its qubit on every normal path' % (f.short, 'set' if want else 'clear'),
                key='sim-flag:%s' % f.short)
+
+
+def _alloc_flag_table(prog, chk, R, sim, mf):
+    """allocate() leaves the new qubit unmeasured whatever the length of the flag vector was (shorter than, equal to, or longer
+    than the qubit count — the longer case holds stale flags of recycled registers): exact evaluation of its syntax tree over
+    the small abstract states (qubit count n ∈ {0,1,2}, flag vector length ∈ {0,n−1,n,n+1,n+3} filled with `true`)"""
+    from ..kabs import Interp, Obj, Unsupported, OutOfRange
+    f = sim['allocate']
+    cnt, amp = R.sim_count_field, R.amp_field
+    bad = []
+    n_states = 0
+    for n in (0, 1, 2):
+        for L in sorted({0, max(0, n - 1), n, n + 1, n + 3}):
+            n_states += 1
+            this = Obj({cnt: n, mf: [True] * L, amp: [1] + [0] * (2 ** n - 1)})
+            try:
+                ret = Interp(prog, {}).call_fn_env(f, [], {'this': this})
+            except OutOfRange as ex:
+                bad.append('n=%d flags=%d: %s' % (n, L, ex))
+                continue
+            except Unsupported as ex:
+                return None, str(ex)
+            ok = ret == n and this[cnt] == n + 1 and len(this[mf]) > n and this[mf][n] is False
+            if not ok:
+                bad.append('n=%d flags=%d: returned %r, count %r, flag %s' % (n, L, ret, this[cnt], (this[mf][n] if len(this[mf]) > n else 'missing')))
+    return bad, n_states
 
 
 def _mentions_member(n, name):
